@@ -574,6 +574,13 @@ class Engine(Interp):
             rv = s.cells.get(nf.cell(0), UNIT)
             rloc = (nf.cell(0), ())
             self.write_place(s, frame, c.term["dest"], rv, self.lin_of(s, rv, rloc) if isinstance(rv, Int) else None, rloc)
+            # a returned boolean keeps its pending definition (outcome of a comparison): kill_frame re-expresses the callee's
+            # parameters in it through what the caller passed
+            d0 = s.defs.get(rloc)
+            if d0 is not None and isinstance(rv, Int) and rv.bits == 1 and not rv.is_const():
+                dl = self.resolve(s, frame, c.term["dest"])
+                if dl is not None and "elem" not in dl[1]:
+                    s.defs[dl] = d0
             try:
                 self.kill_frame(s, nf)
                 pa = self.opt.get("post_assume", {}).get(body.path)
